@@ -163,15 +163,54 @@ def upOwners (cfg : Cfg κ) (idx : Index) (stg : Stage) : List Bytes :=
 def upRan (cfg : Cfg κ) (recursive : Bool) (w : World κ) (stg : Stage) : Bool :=
   recursive && (upOwners cfg w.idx stg).any (didRun w)
 
+/-- an owned input whose recorded checksum differs from what its owner records now -/
+def ownedStale (cfg : Cfg κ) (idx : Index) (stg : Stage) : Bool :=
+  stg.inputs.any fun a =>
+    match findOwner cfg.walkAccumulates idx a.path with
+    | some (_, oa) => a.sum != oa.sum
+    | none => false
+
+omit [DecidableEq κ] in
+theorem ownedStale_eq_false_iff (cfg : Cfg κ) (idx : Index) (stg : Stage) :
+    ownedStale cfg idx stg = false ↔
+      ∀ a, a ∈ stg.inputs → ∀ sp' oa, findOwner cfg.walkAccumulates idx a.path = some (sp', oa) → a.sum = oa.sum := by
+  simp only [ownedStale, List.any_eq_false]
+  constructor
+  · intro h a ha sp' oa ho
+    have := h a ha
+    rw [ho] at this
+    simpa using this
+  · intro h a ha
+    cases ho : findOwner cfg.walkAccumulates idx a.path with
+    | none => simp
+    | some p =>
+      obtain ⟨sp', oa⟩ := p
+      simp [h a ha sp' oa ho]
+
 /-- `doRun` of `Index.Run` as a function of the world after the upstream recursion -/
 def runDecision (cfg : Cfg κ) (recursive : Bool) (w : World κ) (stg : Stage) : Except Err Bool :=
   match allMatch cfg w (sortArts (plainInputs cfg w.idx stg)) with
   | .error e => .error e
   | .ok plainOk =>
-    if stg.noInputs || !stg.sumOk cfg || !plainOk || upRan cfg recursive w stg then .ok true
+    if stg.noInputs || !stg.sumOk cfg || !plainOk || upRan cfg recursive w stg ||
+        ownedStale cfg w.idx stg then .ok true
     else match allMatch cfg w (sortArts stg.outputs) with
       | .error e => .error e
       | .ok oo => .ok (!oo)
+
+omit [DecidableEq κ] in
+/-- the shape of the decision: `pre` short-circuits the output check -/
+theorem decision_shape {α : Type} (pre : Bool) (X : Except Err Bool) (K : Bool → Except Err α) :
+    (match (if pre then (.ok true : Except Err Bool) else X) with
+      | .error e => (.error e : Except Err α)
+      | .ok oo => K (pre || !oo)) =
+    (match (if pre then (.ok true : Except Err Bool) else
+        (match X with | .error e => (.error e : Except Err Bool) | .ok oo => .ok (!oo))) with
+      | .error e => (.error e : Except Err α)
+      | .ok d => K d) := by
+  cases pre with
+  | true => rfl
+  | false => cases X <;> rfl
 
 /-- `runAct` = look the stage up, decide, then either execute and log or just record the decision -/
 theorem runAct_eq (cfg : Cfg κ) (exec : Exec κ) (recursive : Bool) (sp : Bytes) (w : World κ) :
@@ -199,29 +238,21 @@ theorem runAct_eq (cfg : Cfg κ) (exec : Exec κ) (recursive : Bool) (sp : Bytes
         (fun a => (findOwner cfg.walkAccumulates w.idx a.path).isNone))) with
     | error e => rfl
     | ok plainOk =>
-      simp only
-      cases hp : (stg.noInputs || !stg.sumOk cfg || !plainOk || upRan cfg recursive w stg) with
-      | true =>
-        have hp' : (!stg.cmd.isEmpty && stg.inputs.isEmpty || !(!stg.sum.isEmpty && stg.defSum cfg == stg.sum) ||
-          !plainOk || recursive && (stg.inputs.filterMap
-            (fun a => (findOwner cfg.walkAccumulates w.idx a.path).map (·.1))).any (didRun w)) = true := hp
-        simp only [hp', if_true, Bool.true_or]
-        rfl
-      | false =>
-        have hp' : (!stg.cmd.isEmpty && stg.inputs.isEmpty || !(!stg.sum.isEmpty && stg.defSum cfg == stg.sum) ||
-          !plainOk || recursive && (stg.inputs.filterMap
-            (fun a => (findOwner cfg.walkAccumulates w.idx a.path).map (·.1))).any (didRun w)) = false := hp
-        simp only [hp', Bool.false_eq_true, if_false, Bool.false_or]
-        cases allMatch cfg w (sortArts stg.outputs) with
-        | error e => rfl
-        | ok oo => rfl
+      exact decision_shape
+        (stg.noInputs || !stg.sumOk cfg || !plainOk || upRan cfg recursive w stg || ownedStale cfg w.idx stg)
+        (allMatch cfg w (sortArts stg.outputs))
+        (fun d => if d && !stg.cmd.isEmpty then
+            match exec stg w with
+            | .error e => .error e
+            | .ok w' => .ok { w' with ran := (sp, true) :: w'.ran, log := w'.log ++ [sp] }
+          else .ok { w with ran := (sp, d) :: w.ran })
 
 /-- the decision is "do not run" exactly when nothing asks for a run -/
 theorem runDecision_eq_false_iff (cfg : Cfg κ) (recursive : Bool) (w : World κ) (stg : Stage) :
     runDecision cfg recursive w stg = .ok false ↔
       stg.noInputs = false ∧ stg.sumOk cfg = true ∧
       allMatch cfg w (sortArts (plainInputs cfg w.idx stg)) = .ok true ∧
-      upRan cfg recursive w stg = false ∧
+      upRan cfg recursive w stg = false ∧ ownedStale cfg w.idx stg = false ∧
       allMatch cfg w (sortArts stg.outputs) = .ok true := by
   simp only [runDecision]
   cases allMatch cfg w (sortArts (plainInputs cfg w.idx stg)) with
@@ -232,25 +263,26 @@ theorem runDecision_eq_false_iff (cfg : Cfg κ) (recursive : Bool) (w : World κ
     · rename_i hpre
       simp only [Bool.or_eq_true, Bool.not_eq_true'] at hpre
       simp only [Except.ok.injEq, false_iff, Bool.true_eq_false]
-      rintro ⟨h1, h2, h3, h4, _⟩
-      rcases hpre with ((h | h) | h) | h
+      rintro ⟨h1, h2, h3, h4, h5, _⟩
+      rcases hpre with (((h | h) | h) | h) | h
       · rw [h1] at h; cases h
       · rw [h2] at h; cases h
       · rw [h] at h3; cases h3
       · rw [h4] at h; cases h
+      · rw [h5] at h; cases h
     · rename_i hpre
       simp only [Bool.or_eq_true, Bool.not_eq_true', not_or, Bool.not_eq_true, Bool.not_eq_false] at hpre
-      obtain ⟨⟨⟨h1, h2⟩, h3⟩, h4⟩ := hpre
+      obtain ⟨⟨⟨⟨h1, h2⟩, h3⟩, h4⟩, h5⟩ := hpre
       cases allMatch cfg w (sortArts stg.outputs) with
       | error e => simp
-      | ok oo => cases oo <;> simp [h1, h2, h3, h4]
+      | ok oo => cases oo <;> simp [h1, h2, h3, h4, h5]
 
-/-- the decision is "run" exactly when one of the five reasons holds -/
+/-- the decision is "run" exactly when one of the six reasons holds -/
 theorem runDecision_eq_true_iff (cfg : Cfg κ) (recursive : Bool) (w : World κ) (stg : Stage) :
     runDecision cfg recursive w stg = .ok true ↔
       ∃ plainOk, allMatch cfg w (sortArts (plainInputs cfg w.idx stg)) = .ok plainOk ∧
         (stg.noInputs = true ∨ stg.sumOk cfg = false ∨ plainOk = false ∨
-          upRan cfg recursive w stg = true ∨
+          upRan cfg recursive w stg = true ∨ ownedStale cfg w.idx stg = true ∨
           allMatch cfg w (sortArts stg.outputs) = .ok false) := by
   simp only [runDecision]
   cases allMatch cfg w (sortArts (plainInputs cfg w.idx stg)) with
@@ -261,17 +293,18 @@ theorem runDecision_eq_true_iff (cfg : Cfg κ) (recursive : Bool) (w : World κ)
     · rename_i hpre
       simp only [Bool.or_eq_true, Bool.not_eq_true'] at hpre
       simp only [true_iff]
-      rcases hpre with ((h | h) | h) | h
+      rcases hpre with (((h | h) | h) | h) | h
       · exact .inl h
       · exact .inr (.inl h)
       · exact .inr (.inr (.inl h))
       · exact .inr (.inr (.inr (.inl h)))
+      · exact .inr (.inr (.inr (.inr (.inl h))))
     · rename_i hpre
       simp only [Bool.or_eq_true, Bool.not_eq_true', not_or, Bool.not_eq_true, Bool.not_eq_false] at hpre
-      obtain ⟨⟨⟨h1, h2⟩, h3⟩, h4⟩ := hpre
+      obtain ⟨⟨⟨⟨h1, h2⟩, h3⟩, h4⟩, h5⟩ := hpre
       cases allMatch cfg w (sortArts stg.outputs) with
-      | error e => simp [h1, h2, h3, h4]
-      | ok oo => cases oo <;> simp [h1, h2, h3, h4]
+      | error e => simp [h1, h2, h3, h4, h5]
+      | ok oo => cases oo <;> simp [h1, h2, h3, h4, h5]
 
 omit [DecidableEq κ] in
 theorem World.stage_eq_ok {w : World κ} {sp : Bytes} {stg : Stage} :
